@@ -125,6 +125,23 @@ def gen_leaf_reads_cone(rng, k):
     return realize(j), rng.choice(['AIG', 'XAIG', 'FULL']), params, rng.choice(['all', 'all', 'subset', 'shuffle']), rng.getrandbits(30)
 
 
+def gen_leaf_above_output(rng, k):
+    """a cut leaf that lies *above* an output of the cone it bounds (p2 -> p3 -> L1 with the cut {L1, p0, g}): a smaller
+    replacement may compute p2 from L1 and close a cycle — the driver has to drop that splice without a trace"""
+    t = lambda: rng.choice(BIN)
+    ins = ['a', 'b', 'g', 'c', 'd']
+    gates = [[i, 'INPUT', []] for i in ins]
+    gates += [['p0', t(), ['a', 'b']], ['p1', t(), ['g', 'p0']], ['p2', t(), ['p0', 'g']], ['p3', t(), ['a', 'p2']],
+              ['L1', t(), ['p3', 'c']], ['r0', t(), ['L1', 'p2']], ['r1', t(), ['r0', 'p0']], ['r2', t(), ['L1', 'r1']]]
+    outs = ['p1', 'r2', 'L1']
+    if rng.random() < 0.5:
+        gates.append(['r3', rng.choice(['NXOR', 'NAND', 'NOR']), ['r2', 'r2']])
+        outs = ['p1', 'r3', 'L1']
+    j = {'gates': gates, 'inputs': ins, 'outputs': outs, 'blocks': []}
+    params = {'max_subcircuit_size': 9, 'cut_size': rng.choice([4, 4, 5, 3]), 'cut_limit': 25, 'solver_time_limit_sec': 0}
+    return realize(j), rng.choice(['AIG', 'AIG', 'XAIG', 'FULL']), params, rng.choice(['all', 'all', 'shuffle']), rng.getrandbits(30)
+
+
 def gen_stale_cone(rng, k):
     """two cones over shared leaves: one is replaced by fewer gates (its old gates vanish), the other still lists them"""
     t = lambda: rng.choice(BIN)
@@ -165,7 +182,12 @@ def directed_cases():
              'inputs': ['x0', 'x1', 'x2', 'x3'], 'outputs': ['g2', 'g4', 'g3'], 'blocks': []}
     fam = {'x0': [['x0']], 'x1': [['x1']], 'x2': [['x2']], 'x3': [['x3']], 'g1': [['x2', 'x3'], ['g1']], 'g2': [['g1', 'x1'], ['g2']],
            'g3': [['g2', 'x2'], ['g3']], 'g4': [['g1', 'g3'], ['g2', 'x2', 'x3'], ['g4']]}
+    cyc = {'gates': I('a', 'b', 'g', 'c', 'd') + [G('p0', 'OR', 'a', 'b'), G('p1', 'NOR', 'g', 'p0'), G('p2', 'NAND', 'p0', 'g'), G('p3', 'XOR', 'a', 'p2'),
+                                                 G('L1', 'OR', 'p3', 'c'), G('r0', 'OR', 'L1', 'p2'), G('r1', 'AND', 'r0', 'p0'), G('r2', 'XOR', 'L1', 'r1'),
+                                                 G('r3', 'NXOR', 'r2', 'r2')],
+           'inputs': ['a', 'b', 'g', 'c', 'd'], 'outputs': ['p1', 'r3', 'L1'], 'blocks': []}
     for basis in ('AIG', 'XAIG', 'FULL'):
+        out.append((realize(cyc), basis, dict(dflt, cut_size=4), 'all', 0))
         out.append((realize(stale), basis, dflt, 'all', 0))
         out.append((realize(over), basis, dict(dflt, cut_size=4), 'all', 0))
         out.append((realize(leaf), basis, dict(dflt, cut_size=3, max_subcircuit_size=3), 'all', 0))
@@ -237,6 +259,9 @@ def audit_steps(ctx, cj, r, inp):
     replace_subcircuit reproduces, and (iii) the circuits form a chain from the argument to the result"""
     from props import gencommon as G
     steps = r.get('steps') or []
+    for st in steps:
+        if 'err' in st:
+            ctx.count('refused_splice:' + st['err'])
     cur = cj
     model_reqs = []
     for st in steps:
@@ -284,6 +309,9 @@ def canon(j):
 
 
 def tts(cj):
+    from props.evalcommon import json_is_cyclic
+    if json_is_cyclic(cj):
+        raise ValueError('the circuit is cyclic')       # cirbo's evaluator would not terminate
     c = circ_from_json(cj)
     return [''.join('1' if b else '0' for b in row) for row in c.get_truth_table()]
 
@@ -369,6 +397,11 @@ def search(ctx):
         cj, basis, params, cutmode, cutseed = gen_leaf_reads_cone(rng, k)
         ctx.case(json.dumps(['leafcone', cj['gates'], cj['inputs'], cj['outputs'], basis, params, cutmode, cutseed]))
         ctx.count('leaf_reads_cone')
+        check_case(ctx, cj, basis, params, cutmode, cutseed)
+    for k in range(ctx.scale(60, 1500)):
+        cj, basis, params, cutmode, cutseed = gen_leaf_above_output(rng, k)
+        ctx.case(json.dumps(['leafabove', cj['gates'], cj['outputs'], basis, params, cutmode, cutseed]))
+        ctx.count('leaf_above_cone_output')
         check_case(ctx, cj, basis, params, cutmode, cutseed)
     for k in range(ctx.scale(40, 800)):
         cj, basis, params, cutmode, cutseed = gen_stale_cone(rng, k)
